@@ -340,3 +340,29 @@ func runSeq(c SeqCase, st *kit.Stats, h seqHooks, flags map[string]int) error {
 	}
 	return nil
 }
+
+// goneStep removes key k in one of the ways the server distinguishes internally: the entry is taken out
+// of the table (DEL), or it stays stored with a deadline that has passed (UNLINK, a non-positive TTL, an
+// absolute time in the past). To every client all of them mean "k does not exist".
+func goneStep(t *rapid.T, k string) kit.Argv {
+	return kit.A(pick(t, "gone", []string{"DEL", k}, []string{"DEL", k}, []string{"UNLINK", k}, []string{"PEXPIREAT", k, "1000"}, []string{"EXPIRE", k, "-1"},
+		[]string{"PEXPIRE", k, "0"}, []string{"EXPIREAT", k, "1"})...)
+}
+
+// afterGone draws one step with mk and puts in front of it steps that make the key(s) it names gone
+// (see goneStep): the command then meets a key that no client can see but that may still sit in the table.
+func afterGone(t *rapid.T, keys []string, mk func(*rapid.T) kit.Argv) []kit.Argv {
+	step := mk(t)
+	all := rapid.Bool().Draw(t, "goneall")
+	var out []kit.Argv
+	seen := map[string]bool{}
+	for _, a := range step[1:] {
+		for _, k := range keys {
+			if string(a) == k && !seen[k] && (all || len(seen) == 0) {
+				seen[k] = true
+				out = append(out, goneStep(t, k))
+			}
+		}
+	}
+	return append(out, step)
+}
